@@ -340,7 +340,10 @@ def contains(module, tn, pred):
     return any(pred(n, p) for n, p in walk(module, t, {tn}))
 
 
-FEATURES = [f for f in ALL_FEATURES if f != "recursion"]
+# every feature of the wide algebra is on: all failure classes met over the triage seeds are classified
+# (notes/design/C01-wide.md).  "recursion" needed one harness rule: asn_random_fill has no depth control, values
+# nested deeper than WIDE_MAX_DEPTH (harness/moddrv_wide.inc) are discarded like the other unusable ones.
+FEATURES = list(ALL_FEATURES)
 
 
 # ---------------------------------------------------------------------------
